@@ -54,6 +54,10 @@ def jobname(n):
     return "j%d" % n
 
 
+class RestartFailed(Exception):
+    """saving or loading the queue state raised: the server cannot be stopped and started again from this state"""
+
+
 # ----------------------------------------------------------------------------- executing histories
 def new_world():
     if HOOKS["new_world"]:
@@ -100,7 +104,15 @@ def apply_event(w, ev):
     elif k == "wd":
         w.watchdog(advance=ev[1])
     elif k == "restart":
-        w.restart()
+        try:
+            w.restart()
+        except poolmod.CaseTimeout:
+            raise
+        except Exception as e:
+            import traceback
+            tb = traceback.extract_tb(e.__traceback__)
+            where = next((f for f in reversed(tb) if "/qs/" in f.filename), tb[-1])
+            raise RestartFailed("%s@%s" % (type(e).__name__, where.name), "%s: %s" % (type(e).__name__, e))
     elif HOOKS["apply_event"]:
         HOOKS["apply_event"](w, ev)
     else:
@@ -165,16 +177,16 @@ def abstract(w):
     queues = {}
     for ch, q in wq.channel2q.items():
         if q:
-            queues[ch] = sorted([j.priority, j.serial, j.jobid, bool(j.done), wq.id2job.get(j.jobid) is j] for j in q)
-    tq = sorted([round(d - t, 3), j.jobid, wq.id2job.get(j.jobid) is j] for (d, j) in wq.timeoutq if not j.done)
+            queues[ch] = sorted(([j.priority, j.serial, j.jobid, bool(j.done), wq.id2job.get(j.jobid) is j] for j in q), key=repr)
+    tq = sorted(([round(d - t, 3), j.jobid, wq.id2job.get(j.jobid) is j] for (d, j) in wq.timeoutq if not j.done), key=repr)
     conns = {}
     for name, c in w.conns.items():
         g = c.greenlet
         b = blocked.get(name)
         run = [[jid, bool(j.done), wq.id2job.get(jid) is j] for jid, j in (c.handler.running_jobs.items() if c.handler else [])]
         conns[name] = ["dead" if g.dead else "alive", c.eof_sent,
-                       [b[0], sorted(b[1].get("channels") or b[1].get("jobids") or [])] if b else None,
-                       run, sorted(set(deliv.get(name, [])))]
+                       [b[0], sorted(b[1].get("channels") or b[1].get("jobids") or [], key=repr)] if b else None,
+                       run, sorted(set(deliv.get(name, [])), key=repr)]
     waiters = [[sorted(chans), bool(ev.ready()), w.owner_of(ev)] for (chans, ev) in wq._waiters]
     return {"jobs": jobs, "queues": queues, "tq": tq, "conns": conns, "waiters": waiters, "count": wq.count,
             "c2c": wq._channel2count, "njobs": w.njobs, "gen": w.generation, "cb": len(w.hub.pending())}
@@ -184,8 +196,8 @@ def _key_under(a, cm):
     """canonical form of an abstract state under channel map cm; workers are identified by their own
     descriptor (which includes their positions in the waiter list), so sorting the descriptors quotients by
     worker permutation without trying permutations"""
-    jobs = tuple(sorted((jid, cm.get(j[0], j[0]), j[1], j[2], j[3], j[4], j[5], j[6], j[7], j[8]) for jid, j in a["jobs"].items()))
-    queues = tuple(sorted((cm.get(ch, ch), tuple(map(tuple, q))) for ch, q in a["queues"].items()))
+    jobs = tuple(sorted(((jid, cm.get(j[0], j[0]), j[1], j[2], j[3], j[4], j[5], j[6], j[7], j[8]) for jid, j in a["jobs"].items()), key=repr))
+    queues = tuple(sorted(((cm.get(ch, ch), tuple(map(tuple, q))) for ch, q in a["queues"].items()), key=repr))
     tq = tuple(map(tuple, a["tq"]))
     wpos = {}
     waiters = []
@@ -197,7 +209,7 @@ def _key_under(a, cm):
     for name, c in a["conns"].items():
         blocked = None
         if c[2]:
-            blocked = (c[2][0], tuple(sorted(cm.get(x, x) for x in c[2][1])))
+            blocked = (c[2][0], tuple(sorted((cm.get(x, x) for x in c[2][1]), key=repr)))
         d = (c[0], c[1], blocked, tuple(map(tuple, c[3])), tuple(c[4]), tuple(wpos.get(name, ())))
         if name in WORKERS:
             wdesc.append(d)
@@ -238,9 +250,9 @@ def base_shadow_of(w, a):
             if c[2] is None:
                 idle.append(name)
     undone = [jid for jid, j in a["jobs"].items() if not j[3]]
-    return {"njobs": a["njobs"], "jobs": sorted(a["jobs"]), "undone": sorted(undone), "alive": alive, "idle": idle,
+    return {"njobs": a["njobs"], "jobs": sorted(a["jobs"], key=repr), "undone": sorted(undone, key=repr), "alive": alive, "idle": idle,
             "deliv": {n: a["conns"][n][4] for n in WORKERS}, "c2idle": a["conns"]["c2"][2] is None and a["conns"]["c2"][0] == "alive",
-            "killed": sorted(jid for jid, j in a["jobs"].items() if j[4] == "killed"), "gen": a["gen"],
+            "killed": sorted((jid for jid, j in a["jobs"].items() if j[4] == "killed"), key=repr), "gen": a["gen"],
             "holders": {n: [r[0] for r in a["conns"][n][3]] for n in WORKERS}}
 
 
@@ -585,6 +597,10 @@ class Explorer:
             except poolmod.CaseTimeout:
                 out.append({"poll": poll, "choices": (), "key": None, "shadow": None,
                             "viol": [("C16", "hang", "event loop did not reach quiescence within the watchdog")]})
+            except RestartFailed as e:
+                counters["transitions"] += 1
+                out.append({"poll": poll, "choices": (), "key": None, "shadow": None,
+                            "viol": [("C16", "restart-raises:" + e.args[0], "stopping and restarting the server from this state raised " + e.args[1])]})
             finally:
                 ctx.end()
         return {"trans": out, "counters": counters}
@@ -802,6 +818,12 @@ def replay_history(record, families, cfg, post_restart_only=False):
     case = record["case"]
     IDNAMES = tuple(case["idnames"]) if case.get("idnames") else None
     hist = [(tuple(map(tuple_deep, ev)), tuple(ch)) for ev, ch in case["history"]]
+    try:
+        if not case.get("probe"):
+            execute(hist).close()
+    except RestartFailed as e:
+        sig = "restart-raises:" + e.args[0]
+        return {"violated": True, "sig": sig, "msg": "stopping and restarting the server from this state raised " + e.args[1], "all_sigs": [sig]}
     if case.get("probe"):
         viol, got = drain_probe(hist)
         viol = [(f, s, m) for (f, s, m) in viol]
